@@ -1,5 +1,5 @@
 /-
-The theorems are sharp: model-level witnesses for the repaired defects that live in modelled code (D1–D13, D15; D14 is a
+The theorems are sharp: model-level witnesses for the repaired defects that live in modelled code (D1–D13, D15, D16; D14 is a
 CPython-level defect — a mutable buffer — outside the model).
 
 The Lean model mirrors the REPAIRED library.  For every defect that lives in modelled code this file
@@ -601,5 +601,15 @@ example :
       = (Virtual.setterM H0 d15Src (.virt (zeroHash H0 1)) 2 true (.leaf [9])).map (Virtual.MNode.root H0) ∧
     (Virtual.setterM H0 d15Src (.virt (zeroHash H0 1)) 2 true (.leaf [9])).isSome = true ∧
     Virtual.setterMUnrepaired H0 d15Src (.virt (zeroHash H0 1)) 2 true (.leaf [9]) = none := by decide
+
+/-! ### D16 — `ByteList / '__len__'` was refused although the SSZ text gives byte lists the length key (C08) -/
+
+/-- the SSZ generalized index of the length of a byte list is `2·root + 1`, exactly as for lists and bit lists; the
+    repaired library (and `Impl.pathGindex`) agrees, also below other path steps -/
+example :
+    Spec.gindex 1 (some (.bytelist 40)) [.len] = some 3 ∧
+    Impl.pathGindex (.bytelist 40) [.len] = some 3 ∧
+    Impl.pathGindex (.container [.uint 1, .bytelist 40]) [.idx 1, .len] = some 7 ∧
+    Impl.pathGindex (.bytevector 40) [.len] = none := by decide
 
 end Rmk.Defects
